@@ -126,6 +126,8 @@ def canonical_source(path):
             out = raw
         else:
             try:
+                if os.environ.get('VERIF_FMT_NOCACHE'):
+                    raise OSError('cache disabled')
                 os.makedirs(cdir, exist_ok=True)
                 tmp = cfile + '.%d' % os.getpid()
                 open(tmp, 'w').write(out)
